@@ -380,6 +380,12 @@ def _two_day(prog: Program, res: Result):
     for p in f2.params():
         s2.env[p] = Rat.atom(p)
     pk, av = Rat.atom("peak_load"), Rat.atom("avg_load")
+    # locals and nested helper functions the profile expressions may refer to (straight-line definitions, in program order)
+    for s_ in f2.node.body:
+        if isinstance(s_, ast.FunctionDef):
+            e2._s_FunctionDef(s_, s2)
+        elif isinstance(s_, ast.Assign) and len(s_.targets) == 1 and isinstance(s_.targets[0], ast.Name) and not any(isinstance(x, (ast.Call, ast.ListComp)) for x in ast.walk(s_.value)):
+            e2._s_Assign(s_, s2)
 
     def elem_of(stmt):
         # np.array([0.0] + [E] * k)  or  np.array([0.0] + [E for i in ...])
